@@ -692,6 +692,11 @@ func (s *zzrStore) close(lr *LockResolver) {
 // zzrDrain waits for the resolver's background tasks (async resolve pool).
 func zzrDrain() {
 	zzRunAll()
+	// a background task sleeping in a back-off: let virtual time pass
+	for i := 0; zzInterp() && i < 4 && len(globalAsyncResolveLockSemaphore) > 0; i++ {
+		zzAdvance(int64(time.Second))
+		zzRunAll()
+	}
 	if !zzInterp() {
 		for i := 0; i < 2000 && len(globalAsyncResolveLockSemaphore) > 0; i++ {
 			time.Sleep(time.Millisecond)
